@@ -1,4 +1,6 @@
 import NmVerif.Index.Checked
+import NmVerif.Lemmas.CheckedOps
+import NmVerif.Props.C03
 import NmVerif.Props.C04
 import NmVerif.Props.C06
 import NmVerif.Props.C07
@@ -36,11 +38,11 @@ theorem nothing_propagates (p : Pipe) : p.denote = none ↔ p.hasFailedStage := 
 
 /-- normalize_axis reports Nothing exactly for axes outside [-ndim, ndim) -/
 theorem normalizeAxis_isSome_iff (ndim : Nat) (a : Int) :
-    (normalizeAxis ndim a).isSome ↔ (-(ndim : Int) ≤ a ∧ a < ndim) := by
-  unfold normalizeAxis; split <;> simp_all
+    (Checked.normalizeAxis ndim a).isSome ↔ (-(ndim : Int) ≤ a ∧ a < ndim) := by
+  unfold Checked.normalizeAxis; split <;> simp_all
 
-theorem normalizeAxis_lt (ndim : Nat) (a : Int) (k : Nat) (h : normalizeAxis ndim a = some k) : k < ndim := by
-  unfold normalizeAxis at h
+theorem normalizeAxis_lt (ndim : Nat) (a : Int) (k : Nat) (h : Checked.normalizeAxis ndim a = some k) : k < ndim := by
+  unfold Checked.normalizeAxis at h
   split at h
   · simp only [Option.some.injEq] at h
     subst h
@@ -79,10 +81,10 @@ theorem any_bad_iff (dst : List Int) : dst.any (fun d => d ≠ -1 ∧ d ≤ 0) =
 
 /-- the five checks, in the order the code performs them -/
 theorem shapeReshape_isSome (src : Shape) (dst : List Int) :
-    (shapeReshape src dst).isSome ↔
+    (Checked.shapeReshape src dst).isSome ↔
       (¬ countMinusOne dst > 1 ∧ ¬ dst.any (fun d => d ≠ -1 ∧ d ≤ 0) = true ∧
        ¬ (countMinusOne dst = 0 ∧ prod src ≠ dstNumel dst) ∧ dstNumel dst ≠ 0 ∧ prod src % dstNumel dst = 0) := by
-  unfold shapeReshape
+  unfold Checked.shapeReshape
   by_cases h1 : countMinusOne dst > 1
   · rw [if_pos h1]; simp only [Option.isSome_none]; constructor
     · intro h; cases h
@@ -113,7 +115,7 @@ theorem shapeReshape_isSome (src : Shape) (dst : List Int) :
 /-- reshape reports Nothing EXACTLY when the arguments are invalid (more than one -1, a zero or negative extent,
     a mismatching element count, a non-dividing inferred extent) — for every source shape and every non-empty target -/
 theorem shapeReshape_isSome_iff (src : Shape) (dst : List Int) (hne : dst ≠ []) :
-    (shapeReshape src dst).isSome ↔ ValidReshape src dst := by
+    (Checked.shapeReshape src dst).isSome ↔ ValidReshape src dst := by
   rw [shapeReshape_isSome]
   have hemp : dst.isEmpty = false := by cases dst <;> simp_all
   have hdn : dstNumel dst = (prodOthers dst).toNat := by simp [dstNumel, hemp]
@@ -152,12 +154,12 @@ theorem shapeReshape_isSome_iff (src : Shape) (dst : List Int) (hne : dst ≠ []
 
 /-- an accepted reshape has positive extents and exactly the source's element count: never garbage -/
 theorem shapeReshape_sound (src : Shape) (hs : Pos src) (dst : List Int) (hne : dst ≠ []) (t : Shape)
-    (h : shapeReshape src dst = some t) : prod t = prod src ∧ Pos t ∧ t.length = dst.length := by
+    (h : Checked.shapeReshape src dst = some t) : prod t = prod src ∧ Pos t ∧ t.length = dst.length := by
   have hv := (shapeReshape_isSome_iff src dst hne).1 (by rw [h]; rfl)
   have hchk := (shapeReshape_isSome src dst).1 (by rw [h]; rfl)
   obtain ⟨c1, hall, hv0, hv1⟩ := hv
   obtain ⟨h1, h2, h3, h4, h5⟩ := hchk
-  unfold shapeReshape at h
+  unfold Checked.shapeReshape at h
   rw [if_neg h1, if_neg h2, if_neg h3, if_neg h4, if_neg (by omega)] at h
   simp only [Option.some.injEq] at h
   subst h
@@ -237,10 +239,164 @@ theorem pad_isSome_iff (s w : List Nat) : (padView s w).isSome ↔ 2 * s.length 
 theorem roll_invalid_axis_nothing (s : Shape) (shift axis : Int) (h : axis < -(s.length : Int) ∨ (s.length : Int) ≤ axis) :
     rollView s shift axis = none := C04.roll_nothing s shift axis h
 
+/-! ### run-time argument validation of the rearranging / replicating / joining views
+    (`…Checked` = the checks of the view constructor in the order of the C++ followed by the value model of the owning
+    property, see Index/CheckedOps.lean).  Each theorem: the constructor yields a view EXACTLY on NumPy's valid
+    arguments, and on those it is the unchecked value model (valid calls are unchanged). -/
+
+/-- NumPy accepts `np.transpose(a, axes)`: the axes, each in `[-dim, dim)`, are a permutation of `0..dim-1` once
+    normalised -/
+def ValidTranspose (dim : Nat) (ax : List Int) : Prop := ∃ p, normalizeAxes dim ax = some p ∧ p.Perm (List.range dim)
+
+instance (dim : Nat) (ax : List Int) : Decidable (ValidTranspose dim ax) :=
+  decidable_of_iff _ (transposeAxesOk_iff dim ax)
+
+/-- transpose with run-time axes yields a view exactly for (spellings of) permutations of the axes — a repeated axis,
+    an axis outside `[-dim, dim)`, too few or too many axes give Nothing — and then it is the view of C03 -/
+theorem transpose_isSome_iff_valid (src : Shape) (ax : List Int) :
+    ((transposeChecked src ax).isSome ↔ ValidTranspose src.length ax) ∧
+    (ValidTranspose src.length ax → transposeChecked src ax = transposeView src (some ax)) := by
+  unfold transposeChecked
+  by_cases h : transposeAxesOk src.length ax = true
+  · have hv := (transposeAxesOk_iff _ _).1 h
+    obtain ⟨p, hn, hperm⟩ := hv
+    obtain ⟨v, hview, _⟩ := C03.transpose_eq_spec src ax p hn hperm
+    rw [if_pos h]
+    exact ⟨⟨fun _ => ⟨p, hn, hperm⟩, fun _ => by rw [hview]; rfl⟩, fun _ => rfl⟩
+  · have hnv : ¬ ValidTranspose src.length ax := fun hv => h ((transposeAxesOk_iff _ _).2 hv)
+    rw [if_neg h]
+    exact ⟨⟨fun hs => (by cases hs), fun hv => absurd hv hnv⟩, fun hv => absurd hv hnv⟩
+
+example : ValidTranspose 3 [-1, 0, 1] ∧ (transposeChecked [2,3,4] [-1,0,1]).map (·.dst) = some [4,2,3] := by decide
+example : ¬ ValidTranspose 2 [0, 0] ∧ ¬ ValidTranspose 2 [0, 2] ∧ ¬ ValidTranspose 2 [0, -3] ∧ ¬ ValidTranspose 2 [0] ∧
+    ¬ ValidTranspose 2 [1, -1] ∧ (transposeChecked [2,3] [0,0]).isSome = false := by decide
+
+/-- swapaxes yields a view exactly when both axes lie in `[-dim, dim)`, and then it is the view of C03 -/
+theorem swapaxes_isSome_iff_valid (src : Shape) (a1 a2 : Int) :
+    ((swapaxesChecked src a1 a2).isSome ↔
+      ((-(src.length : Int) ≤ a1 ∧ a1 < src.length) ∧ (-(src.length : Int) ≤ a2 ∧ a2 < src.length))) ∧
+    ((swapaxesChecked src a1 a2).isSome → swapaxesChecked src a1 a2 = swapaxesView src a1 a2) := by
+  unfold swapaxesChecked
+  by_cases h : (axisInRange src.length a1 && axisInRange src.length a2) = true
+  · have h' := h
+    simp only [Bool.and_eq_true] at h'
+    have hs := swapaxesView_isSome src a1 a2 h'.1 h'.2
+    rw [if_pos h]
+    exact ⟨⟨fun _ => ⟨(axisInRange_iff _ _).1 h'.1, (axisInRange_iff _ _).1 h'.2⟩, fun _ => hs⟩, fun _ => rfl⟩
+  · rw [if_neg h]
+    refine ⟨⟨fun hs => (by cases hs), fun hv => ?_⟩, fun hs => by cases hs⟩
+    exact absurd (by simp only [Bool.and_eq_true]; exact ⟨(axisInRange_iff _ _).2 hv.1, (axisInRange_iff _ _).2 hv.2⟩) h
+
+example : (swapaxesChecked [2,3,4] 0 (-1)).map (·.dst) = some [4,3,2] ∧ (swapaxesChecked [2,3] 0 2).isSome = false ∧
+    (swapaxesChecked [2,3] (-3) 0).isSome = false := by decide
+
+/-- NumPy accepts `np.expand_dims(a, axes)`: every axis in `[-n, n)` for `n = ndim + len(axes)`, none repeated -/
+def ValidExpandDims (dim : Nat) (ax : List Int) : Prop :=
+  ∃ nax, normalizeAxes (dim + ax.length) ax = some nax ∧ nax.Nodup
+
+instance (dim : Nat) (ax : List Int) : Decidable (ValidExpandDims dim ax) := by
+  unfold ValidExpandDims
+  cases h : normalizeAxes (dim + ax.length) ax with
+  | none => exact isFalse (by rintro ⟨_, h', _⟩; cases h')
+  | some nax =>
+    exact decidable_of_iff nax.Nodup ⟨fun hn => ⟨nax, rfl, hn⟩, by rintro ⟨_, h', hn⟩; cases h'; exact hn⟩
+
+/-- expand_dims (int or tuple axis) yields a view exactly on NumPy's valid axes, and then it is the view of C03 -/
+theorem expandDims_isSome_iff_valid (src : Shape) (hs : Pos src) (ax : List Int) :
+    ((expandDimsChecked src ax).isSome ↔ ValidExpandDims src.length ax) ∧
+    (ValidExpandDims src.length ax → expandDimsChecked src ax = expandDimsView src ax) := by
+  unfold expandDimsChecked ValidExpandDims
+  cases hn : normalizeAxes (src.length + ax.length) ax with
+  | none =>
+    refine ⟨⟨fun h => (by cases h), ?_⟩, ?_⟩
+    · rintro ⟨_, h', _⟩; cases h'
+    · rintro ⟨_, h', _⟩; cases h'
+  | some nax =>
+    by_cases hd : pairwiseDistinct nax = true
+    · have hnd := (pairwiseDistinct_iff nax).1 hd
+      obtain ⟨v, hv, _⟩ := C03.expandDims_eq_spec (⟨src, fun _ => (0 : Nat)⟩ : Arr Nat) 0 ax nax hn hnd hs
+      have hv' : expandDimsView src ax = some v := hv
+      show ((if pairwiseDistinct nax = true then expandDimsView src ax else none).isSome ↔ _) ∧ _
+      rw [if_pos hd]
+      exact ⟨⟨fun _ => ⟨nax, rfl, hnd⟩, fun _ => by rw [hv']; rfl⟩, fun _ => by simp only [if_pos hd]⟩
+    · have hnn : ¬ nax.Nodup := fun h => hd ((pairwiseDistinct_iff nax).2 h)
+      show ((if pairwiseDistinct nax = true then expandDimsView src ax else none).isSome ↔ _) ∧ _
+      rw [if_neg hd]
+      refine ⟨⟨fun h => (by cases h), ?_⟩, ?_⟩
+      · rintro ⟨n2, h', hn2⟩
+        cases h'
+        exact absurd hn2 hnn
+      · rintro ⟨n2, h', hn2⟩
+        cases h'
+        exact absurd hn2 hnn
+
+example : ValidExpandDims 2 [0, -1] ∧ (expandDimsChecked [2,3] [0,-1]).map (·.dst) = some [1,2,3,1] := by decide
+example : ¬ ValidExpandDims 2 [3] ∧ ¬ ValidExpandDims 2 [-4] ∧ ¬ ValidExpandDims 2 [0, 0] ∧ ¬ ValidExpandDims 2 [0, -4] ∧
+    (expandDimsChecked [2,3] [3]).isSome = false ∧ (expandDimsChecked [2,3] [1,-3]).isSome = false := by decide
+
+/-- repeat (scalar count, run-time integer axis) yields a view exactly for an axis in `[-dim, dim)`; then it is the
+    view of C04 -/
+theorem repeat_isSome_iff_valid (src : Shape) (r : Nat) (axis : Int) :
+    ((repeatChecked src r axis).isSome ↔ (-(src.length : Int) ≤ axis ∧ axis < src.length)) ∧
+    ((repeatChecked src r axis).isSome → repeatChecked src r axis = repeatView src r (some axis)) := by
+  unfold repeatChecked
+  by_cases h : axisInRange src.length axis = true
+  · rw [if_pos h]
+    exact ⟨⟨fun _ => (axisInRange_iff _ _).1 h, fun _ => repeatView_isSome src r axis h⟩, fun _ => rfl⟩
+  · rw [if_neg h]
+    exact ⟨⟨fun hs => (by cases hs), fun hv => absurd ((axisInRange_iff _ _).2 hv) h⟩, fun hs => by cases hs⟩
+
+/-- repeat with one count per entry of the axis: additionally the number of counts must be the extent of the axis -/
+theorem repeatList_isSome_iff_valid (src : Shape) (rs : List Nat) (axis : Int) :
+    ((repeatListChecked src rs axis).isSome ↔
+      ∃ k, normalizeAxis1 axis src.length = some k ∧ src[k]? = some rs.length) ∧
+    ((repeatListChecked src rs axis).isSome → repeatListChecked src rs axis = repeatListView src rs axis) := by
+  unfold repeatListChecked
+  by_cases h : axisInRange src.length axis = true
+  · obtain ⟨k, hk, hlt⟩ := normalizeAxis1_of_inRange _ _ h
+    rw [if_pos h, atPy_of_normalizeAxis1 src axis k hk]
+    by_cases he : src[k]? = some rs.length
+    · rw [if_pos he]
+      exact ⟨⟨fun _ => ⟨k, hk, he⟩, fun _ => repeatListView_isSome src rs axis h⟩, fun _ => rfl⟩
+    · rw [if_neg he]
+      refine ⟨⟨fun hs => (by cases hs), ?_⟩, fun hs => by cases hs⟩
+      rintro ⟨k', hk', he'⟩
+      rw [hk] at hk'; cases hk'
+      exact absurd he' he
+  · rw [if_neg h]
+    refine ⟨⟨fun hs => (by cases hs), ?_⟩, fun hs => by cases hs⟩
+    rintro ⟨k, hk, _⟩
+    exact absurd (normalizeAxis1_isSome_inRange _ _ k hk) h
+
+example : (repeatChecked [2,3] 2 (-1)).map (·.dst) = some [2,6] ∧ (repeatChecked [2,3] 2 2).isSome = false ∧
+    (repeatChecked [2,3] 2 (-3)).isSome = false := by decide
+example : (repeatListChecked [2,3] [1,0,2] 1).map (·.dst) = some [2,3] ∧ (repeatListChecked [2,3] [1,2] 1).isSome = false ∧
+    (repeatListChecked [2,3] [1,2] 2).isSome = false := by decide
+
+instance (a b : Shape) (axis : Int) : Decidable (ValidConcat a b axis) := decidable_of_iff _ (concatenateOk_iff a b axis)
+
+/-- concatenate yields a view exactly when NumPy accepts the operands (`ValidConcat`: equal ranks, axis in
+    `[-dim, dim)`, equal extents off the axis); then it is the view of C04 -/
+theorem concatenate_isSome_iff_valid (a b : Shape) (axis : Int) :
+    ((concatenateChecked a b axis).isSome ↔ ValidConcat a b axis) ∧
+    (ValidConcat a b axis → concatenateChecked a b axis = concatenateView a b (some axis)) := by
+  unfold concatenateChecked
+  by_cases h : concatenateOk a b axis = true
+  · have hv := (concatenateOk_iff a b axis).1 h
+    rw [if_pos h]
+    exact ⟨⟨fun _ => hv, fun _ => rfl⟩, fun _ => rfl⟩
+  · have hnv : ¬ ValidConcat a b axis := fun hv => h ((concatenateOk_iff a b axis).2 hv)
+    rw [if_neg h]
+    exact ⟨⟨fun hs => (by cases hs), fun hv => absurd hv hnv⟩, fun hv => absurd hv hnv⟩
+
+example : ValidConcat [2,3] [4,3] (-2) ∧ (concatenateChecked [2,3] [4,3] (-2)).map (·.dst) = some [6,3] := by decide
+example : ¬ ValidConcat [2,3] [1,2] 0 ∧ ¬ ValidConcat [2,3] [3] 0 ∧ ¬ ValidConcat [2,3] [2,3] 2 ∧ ¬ ValidConcat [2,3] [2,3] (-3) ∧
+    (concatenateChecked [2,3] [2,3] 2).isSome = false := by decide
+
 /-! the behaviours the property singles out, on concrete arguments (also non-vacuity of `ValidReshape`) -/
-example : shapeReshape [2,3] [3,-1] = some [3,2] ∧ ValidReshape [2,3] [3,-1] := by decide
-example : shapeReshape [2,3] [0,-1] = none ∧ shapeReshape [2,3] [-2,-3] = none ∧ shapeReshape [2,3] [-1,-1] = none ∧
-    shapeReshape [2,3] [4,-1] = none ∧ shapeReshape [2,3] [5] = none := by decide
+example : Checked.shapeReshape [2,3] [3,-1] = some [3,2] ∧ ValidReshape [2,3] [3,-1] := by decide
+example : Checked.shapeReshape [2,3] [0,-1] = none ∧ Checked.shapeReshape [2,3] [-2,-3] = none ∧ Checked.shapeReshape [2,3] [-1,-1] = none ∧
+    Checked.shapeReshape [2,3] [4,-1] = none ∧ Checked.shapeReshape [2,3] [5] = none := by decide
 
 end NmVerif.Props.C15
 
